@@ -226,9 +226,12 @@ static void clear_elem(m_map_t *m, map_elem *removed_entry) {
     m->length--;
     
     size_t removed_index = (removed_entry - m->table);
-    const size_t probe_len = MAP_PROBE_LEN(m);    
     size_t index = MAP_PROBE_NEXT(m, removed_index);
-    for (size_t i = 0; i < probe_len; i++) {
+    /*
+     * Walk the whole cluster that follows the removed slot: it is made of chains of several home slots
+     * and can be longer than the probe limit of a single key. Entries left beyond an emptied slot would be lost.
+     */
+    for (size_t i = 0; i < m->table_size; i++) {
         map_elem *entry = &m->table[index];
         if (!entry->key) {
             /* Reached end of chain */
